@@ -31,7 +31,42 @@ type kqFacts struct {
 	fdTable   *types.Var // map[int]watch
 	userTable *types.Var // byUser
 	pathTable *types.Var
-	removeFn  *ssa.Function // function containing close(2) of a watch descriptor and the table removal
+	removeFn  *ssa.Function // function containing close(2) of a watch descriptor (for messages)
+	removal   map[*ssa.Function]bool // functions that reach both the descriptor-table delete and close(2) of a watch descriptor
+}
+
+// inRemoval: ctx lies inside (an inlined call of) a removal function.
+func (kf *kqFacts) inRemoval(c *Ctx) bool {
+	for x := c; x != nil && x.Parent != nil; x = x.Parent {
+		if kf.removal[x.Fn] {
+			return true
+		}
+	}
+	return false
+}
+
+func computeRemoval(a *An, kf *kqFacts) {
+	kf.removal = map[*ssa.Function]bool{}
+	for _, fn := range a.P.srcFuncs(a.P.Main) {
+		if fn.Signature.Recv() == nil || deref(fn.Signature.Recv().Type()) != types.Type(a.Ro.Backend) {
+			continue
+		}
+		w := a.E.Walk(fn, WalkOpts{NoCond: true})
+		del, cl := false, false
+		for _, v := range w.Visits {
+			if args, ok := isBuiltinCall(v.Instr, "delete"); ok && v.Ctx.fieldOfValue(args[0]) == kf.fdTable {
+				del = true
+			}
+		}
+		for _, c := range unixCloseVisits(w) {
+			if strings.HasSuffix(stripIDs(c.Ctx.path(c.Instr.(*ssa.Call).Call.Args[0])), ".wd") {
+				cl = true
+			}
+		}
+		if del && cl && !containsFn(a.Ro.Readers, fn) {
+			kf.removal[fn] = true
+		}
+	}
 }
 
 func kqFind(a *An) *kqFacts {
@@ -89,6 +124,7 @@ func runC17(p *Program, e *Engine, r *Result, tier string) {
 	if kf == nil {
 		return
 	}
+	computeRemoval(a, kf)
 	c17Open(a, kf)
 	c17Pairing(a, kf)
 	c17Close(a, kf)
@@ -285,24 +321,24 @@ func c17Pairing(a *An, kf *kqFacts) {
 			a.R.ob("C17.2", key, "a descriptor leaves the table only together with close(2) on it", a.P.instrPos(v.Instr), okc, how)
 		}
 	}
-	if kf.removeFn == nil {
+	if kf.removeFn == nil || len(kf.removal) == 0 {
 		a.R.fail("anchor unresolved: the function that closes a watch descriptor and removes its table entry")
 		return
 	}
-	// directory entries
+	// directory entries: on the Remove flow a removal function is called again for the names listed for the directory
 	w := a.walk(ro.API["Remove"])
 	child := false
 	for _, v := range w.Visits {
 		call, ok := v.Instr.(*ssa.Call)
-		if !ok || call.Parent() != kf.removeFn {
+		if !ok {
 			continue
 		}
 		cal := v.Ctx.calleeOf(&call.Call)
-		if cal == nil || (cal != kf.removeFn && cal != ro.API["Remove"]) {
+		if cal == nil || (!kf.removal[cal] && cal != ro.API["Remove"]) {
 			continue
 		}
 		for _, arg := range call.Call.Args {
-			if strings.Contains(v.Ctx.path(arg), "watchesInDir(") || strings.Contains(v.Ctx.path(arg), "InDir(") {
+			if strings.Contains(v.Ctx.path(arg), "InDir(") {
 				child = true
 			}
 		}
@@ -315,15 +351,14 @@ func c17Pairing(a *An, kf *kqFacts) {
 		found := false
 		for _, v := range rw.Visits {
 			call, ok := v.Instr.(*ssa.Call)
-			if !ok || v.Ctx.Parent != nil || v.Ctx.calleeOf(&call.Call) != kf.removeFn {
+			if !ok || v.Ctx.Parent != nil || !kf.removal[v.Ctx.calleeOf(&call.Call)] {
 				continue
 			}
 			found = true
-			// condition must be implied by "Op has Rename" and by "Op has Remove" in the enclosing context
 			var subj string
 			for _, c := range v.Cond {
 				for _, l := range c {
-					if l.A.Kind == AkBit && strings.HasSuffix(l.A.Subj, ".Op") {
+					if (l.A.Kind == AkBit || l.A.Kind == AkAny) && strings.HasSuffix(l.A.Subj, ".Op") {
 						subj = l.A.Subj
 					}
 				}
@@ -332,7 +367,6 @@ func c17Pairing(a *An, kf *kqFacts) {
 			var why []string
 			for _, name := range []string{"Rename", "Remove"} {
 				var ctx DNF
-				// strip Op literals from the condition to get the enclosing context
 				for _, c := range v.Cond {
 					n := Conj{}
 					for k, l := range c {
@@ -355,7 +389,7 @@ func c17Pairing(a *An, kf *kqFacts) {
 			a.R.ob("C17.2", "reader:remove-on-rename-or-remove", "an event with Rename or Remove ends the watch (its descriptor is closed)", a.P.instrPos(call), okAll, strings.Join(why, "; "))
 		}
 		if !found {
-			a.R.ob("C17.2", "reader:remove-on-rename-or-remove", "an event with Rename or Remove ends the watch (its descriptor is closed)", a.P.pos(rd.Pos()), false, "the reader never calls "+shortFn(kf.removeFn))
+			a.R.ob("C17.2", "reader:remove-on-rename-or-remove", "an event with Rename or Remove ends the watch (its descriptor is closed)", a.P.pos(rd.Pos()), false, "the reader calls no function that closes a watch descriptor and removes its table entry")
 		}
 	}
 }
@@ -369,7 +403,7 @@ func c17Close(a *An, kf *kqFacts) {
 	var conds []string
 	for _, c := range unixCloseVisits(w) {
 		call := c.Instr.(*ssa.Call)
-		if call.Parent() != kf.removeFn {
+		if !strings.HasSuffix(stripIDs(c.Ctx.path(call.Call.Args[0])), ".wd") {
 			continue
 		}
 		live := underClosed(ro, c.Cond)
@@ -388,7 +422,7 @@ func c17Close(a *An, kf *kqFacts) {
 			continue
 		}
 		cal := v.Ctx.calleeOf(&call.Call)
-		if cal != kf.removeFn && cal != ro.API["Remove"] {
+		if !kf.removal[cal] && cal != ro.API["Remove"] {
 			continue
 		}
 		onlyLoop, _ := v.Cond.everyConj(func(c Conj) bool {
@@ -401,7 +435,7 @@ func c17Close(a *An, kf *kqFacts) {
 			}
 			return true
 		})
-		if onlyLoop && cal == kf.removeFn {
+		if onlyLoop && kf.removal[cal] && cal != ro.API["Remove"] {
 			loopCall = true
 		}
 		if cal == ro.API["Remove"] {
